@@ -44,11 +44,12 @@ func c01Types() []c01Type {
 }
 
 type c01World struct {
-	w      *world.World
-	types  []c01Type
-	srv    map[model.FeatureTypeType]api.FeatureLocalInterface
-	cli    map[model.FeatureTypeType]api.FeatureLocalInterface
-	writab map[model.FunctionType]bool
+	twoCmds bool // every delivered datagram carries its cmd twice
+	w       *world.World
+	types   []c01Type
+	srv     map[model.FeatureTypeType]api.FeatureLocalInterface
+	cli     map[model.FeatureTypeType]api.FeatureLocalInterface
+	writab  map[model.FunctionType]bool
 }
 
 // peers announce on entity [1] for type i: client feature 2i+1, server feature 2i+2
@@ -120,6 +121,10 @@ func (c *c01World) deliver(cs c01Case, src, dst *model.FeatureAddressType, cmd m
 	pe := c.w.Peers[cs.peer]
 	m := c.w.Mark()
 	d := pe.Datagram(src, dst, cs.class, cs.ack, ref, cmd)
+	if c.twoCmds {
+		// a datagram may carry several cmds; it is still ONE message with one message counter
+		d.Payload.Cmd = append(d.Payload.Cmd, cmd)
+	}
 	if cs.ackFalse {
 		d.Header.AckRequest = util.Ptr(false)
 	}
@@ -566,17 +571,13 @@ func c01Families(thorough bool) []*engine.IFamily {
 						}
 						for _, ack := range []bool{false, true} {
 							isRead := strings.HasPrefix(sh.name, "read")
-							var cases []struct {
-								class    model.CmdClassifierType
-								src, dst *model.FeatureAddressType
-								ref      *model.MsgCounterType
-							}
 							cli, srv := world.FAddr("dA", []uint{1}, uint(2*ti+1)), world.FAddr("dA", []uint{1}, uint(2*ti+2))
 							type cse = struct {
 								class    model.CmdClassifierType
 								src, dst *model.FeatureAddressType
 								ref      *model.MsgCounterType
 							}
+							var cases []cse
 							switch {
 							case isRead:
 								cases = append(cases, cse{model.CmdClassifierTypeRead, cli, c.srv[t.ft].Address(), nil})
@@ -588,7 +589,8 @@ func c01Families(thorough bool) []*engine.IFamily {
 									cases = append(cases, cse{model.CmdClassifierTypeWrite, cli, c.srv[t.ft].Address(), nil})
 								}
 							}
-							for _, k := range cases {
+							for ki, k := range append(append([]cse{}, cases...), cases...) {
+								c.twoCmds = ki >= len(cases)
 								cs := c01Case{class: k.class, ack: ack, dest: "server", fn: fn, peer: "A"}
 								switch {
 								case isRead:
@@ -605,9 +607,14 @@ func c01Families(thorough bool) []*engine.IFamily {
 								if cs.expect != "resultiferr" {
 									r.Nontrivial++
 								}
-								for _, v := range c.deliver(cs, k.src, k.dst, cmd, k.ref) {
-									fail(cs, sh.name, v)
+								shape := sh.name
+								if c.twoCmds {
+									shape += " (cmd twice in one datagram)"
 								}
+								for _, v := range c.deliver(cs, k.src, k.dst, cmd, k.ref) {
+									fail(cs, shape, v)
+								}
+								c.twoCmds = false
 							}
 						}
 					}
